@@ -291,20 +291,25 @@ class Gen:
 
     def time_params(self):
         r = self.rng.random()
-        if r < 0.5:
+        if r < 0.4:
             d = datetime(2026, 1, 1) + timedelta(seconds=self.rng.randrange(0, 10 ** 8))
             return [d.year // 100, d.year % 100, d.month, d.day, d.hour, d.minute, d.second,
                     self.rng.randrange(0, 110)]
-        if r < 0.6:
+        if r < 0.5:
             return [self.rng.randrange(10, 100), self.rng.randrange(0, 100), self.rng.randrange(1, 13),
                     self.rng.randrange(1, 29), self.rng.randrange(24), self.rng.randrange(60),
                     self.rng.randrange(60), self.rng.randrange(256)]
-        if r < 0.65:
+        if r < 0.62:
+            # years 1..999: two-digit and three-digit years are rendered by a different code path
+            y = self.rng.choice([self.rng.randrange(1, 100), self.rng.randrange(100, 1000)])
+            return [y // 100, y % 100, self.rng.randrange(1, 13), self.rng.randrange(1, 29), self.rng.randrange(24),
+                    self.rng.randrange(60), self.rng.randrange(60), self.rng.randrange(100)]
+        if r < 0.7:
             return self.rng.choice([[99, 99, 12, 31, 23, 59, 59, 255], [0, 1, 1, 1, 0, 0, 0, 0],
                                     [20, 24, 2, 29, 12, 0, 0, 0], [20, 23, 2, 29, 12, 0, 0, 0],
                                     [9, 99, 12, 31, 23, 59, 59, 99], [0, 50, 6, 15, 1, 2, 3, 4],
                                     [1, 100, 1, 1, 0, 0, 0, 0], [0, 0, 1, 1, 0, 0, 0, 0]])
-        if r < 0.85:
+        if r < 0.87:
             return [self.byte() for _ in range(8)]
         return [self.byte() for _ in range(self.rng.choice([0, 1, 7, 9, 12]))]
 
@@ -369,10 +374,14 @@ class Gen:
             c = rng.choice([x for x in (0x40, 0x50, 0x51, 0x60, 0x70, 0x00, 0x01, 0xFF, self.byte()) if x not in acc])
             sa = self.address(keys) if sa is None else sa
             return [ord(DEF.CMD_SOH), sa, self.byte(), c, self.byte()], ('UNKNOWN', False, sa)
+        p = None
+        if kind is None and self.tag in (1, 2, 3) and rng.random() < 0.3:
+            kind, p = self.special()
         kind = rng.choice(KINDS) if kind is None else kind
         ext = (rng.random() < 0.5) if ext is None else ext
         sa = self.address(keys) if sa is None else sa
-        p = self.params(kind, keys)
+        if p is None:
+            p = self.params(kind, keys)
         good = True
         if corrupt is None:
             corrupt = ext and rng.random() < 0.12
@@ -382,6 +391,23 @@ class Gen:
         filler = (self.byte(), self.byte())
         m = build(DEF, kind, ext, sa, self.byte(), self.byte(), p, good=good, eot=eot, filler=filler)
         return m, (kind, ext, sa)
+
+    def special(self):
+        """a get_data / set_data on the keys the board type treats specially (DIO bits, LNA drive keys)"""
+        rng = self.rng
+        if self.tag in (1, 2):
+            pn = rng.choice([0, 1, 2, 4, 5, 6, 7, 8, 11, 12, 13, 14, 16, 17, 18, 19, 24, 26, 29, 30,
+                             rng.randrange(0, 32)])
+            if rng.random() < 0.55:
+                return 'SET_DATA', [self.B01, self.DIO, pn, rng.randrange(2) if rng.random() < 0.9 else self.byte()]
+            return 'GET_DATA', [self.B01, self.DIO, pn]
+        k = rng.choice([[self.B01, self.DIO, 8], [self.B01, self.DIO, 9], [self.U08, self.DIO, self.P0007],
+                        [self.F32, self.AD24, self.P0007], [self.F32, self.AD24, rng.choice(self.pns)],
+                        [self.F32, rng.choice(self.pts), self.P0007], [self.U08, self.DIO, rng.choice(self.pns)]])
+        if rng.random() < 0.55:
+            v = [self.byte()] if rng.random() < 0.8 else [self.byte() for _ in range(rng.randrange(2, 5))]
+            return 'SET_DATA', k + v
+        return 'GET_DATA', k
 
     def garbage(self):
         rng = self.rng
@@ -396,6 +422,50 @@ class Gen:
         if r < 0.85:
             return [soh] * rng.randrange(1, 5)
         return [self.byte() for _ in range(rng.randrange(1, 12))]
+
+
+
+def scenario_stream(rng, DEF, g, tag, keys):
+    """a dense exercise of the board-type specific registers: every writable DIO bit written with 0 and 1 in
+    random order (so that the coupled read-only bits 16..19, 29, 30 and the switch positions go through all
+    their states), every readable bit read in between; for the LNA its drive keys"""
+    segs = []
+    bro = [ord(c) for c in DEF.SLAVE_ADDR_BROADCAST]
+    good = [k for k in keys if k not in bro] or [1]
+
+    def req(kind, p, sa=None):
+        segs.append(build(DEF, kind, rng.random() < 0.5, rng.choice(good) if sa is None else sa,
+                          g.byte(), g.byte(), p))
+    if tag in (1, 2):
+        w = [0, 4, 5, 7, 8, 11, 12, 13, 14] + ([1, 2] if tag == 2 else [])
+        r = [0, 1, 2, 4, 5, 6, 7, 8, 11, 12, 13, 14, 16, 17, 18, 19, 24, 26, 29, 30]
+        for _ in range(rng.randrange(25, 45)):
+            x = rng.random()
+            if x < 0.5:
+                req('SET_DATA', [g.B01, g.DIO, rng.choice(w), rng.randrange(2)])
+            elif x < 0.9:
+                req('GET_DATA', [g.B01, g.DIO, rng.choice(r)])
+            elif x < 0.95:
+                req('SET_DATA', [g.B01, g.DIO, rng.choice(w), rng.randrange(2)], sa=0x7F)
+            else:
+                req('INQUIRY', [])
+    elif tag == 3:
+        for _ in range(rng.randrange(20, 35)):
+            kind, p = g.special()
+            req(kind, p)
+    else:
+        for _ in range(rng.randrange(20, 35)):
+            k = [rng.choice(g.dts[:3]), rng.choice(g.pts[:2]), rng.choice(g.pns[:2])]
+            x = rng.random()
+            if x < 0.3:
+                req('SET_PORT', k + [g.byte()])
+            elif x < 0.55:
+                req('SET_DATA', k + g.value())
+            elif x < 0.8:
+                req('GET_DATA', k)
+            else:
+                req('GET_PORT', k)
+    return segs
 
 
 CONFIGS = [(1, 1), (1, 3), (1, 5), (0x7D, 0x7D), (0x7C, 0x7E), (2, 6), (1, 2), (0, 2), (0x7E, 0x80), (5, 4)]
